@@ -4,6 +4,7 @@ import (
 	"fmt"
 	"math/big"
 	"reflect"
+	"strings"
 	"time"
 
 	"github.com/cockroachdb/apd/v2"
@@ -50,6 +51,32 @@ func ExtraValues() []GV {
 		GV{"embedded#3", "embedded", EmbTwo{EmbL4: EmbL4{1, "one", 1.5}, Other: EmbL3{EmbL4: EmbL4{2, "two", 2.5}, M: 2, N: []int32{2}}, Tail: []EmbL4{{3, "three", 3.5}, {4, "four", 4.5}}}},
 		GV{"embedded#4", "embedded", map[string]EmbL3{"k": {EmbL4: EmbL4{9, "nine", 9.5}, M: 9, N: []int32{9, 9}}}},
 	)
+	// map keys: every integer key kind with k and -k on both sides of the encodings' small-int / width boundaries
+	out = append(out,
+		GV{"mapkeys#i32", "map-keys", map[int32]string{-5: "a", 5: "b", -300: "c", 300: "d", 7: "e", -100: "f", 100: "g", -101: "h", 101: "i"}},
+		GV{"mapkeys#i64", "map-keys", map[int64]uint8{-1 << 32: 1, 1 << 32: 2, -1 << 63: 3, 1<<63 - 1: 4, -65536: 5, 65536: 6}},
+		GV{"mapkeys#i8", "map-keys", map[int8]bool{-128: true, 127: false, -1: true, 1: false, 0: true}},
+		GV{"mapkeys#u64", "map-keys", map[uint64]int{0: 0, 1<<64 - 1: -1, 1 << 63: 2, 255: 3, 256: 4}},
+		GV{"mapkeys#bool", "map-keys", map[bool]int{true: 1, false: 0}}, // float keys are not keyable in this implementation's rules
+		GV{"mapkeys#uid", "map-keys", map[types.UID]string{{1, 2, 3, 4, 5, 6, 7, 8, 9, 10, 11, 12, 13, 14, 15, 16}: "a", {}: "b"}},
+		GV{"mapkeys#iface", "map-keys", map[interface{}]interface{}{int64(-300): "a", int64(300): "b", "300": "c", "-300": "d", true: "e", "true": "f"}},
+		GV{"mapkeys#str", "map-keys", map[string]int{"": 0, "a": 1, "A": 2, "a ": 3, "é": 4, "é": 5}},
+	)
+	// long arrays: payloads on both sides of 64 KiB (the binary reader's read-ahead step) and beyond two steps
+	for _, n := range []int{65535, 65536, 65537, 140000} {
+		u32 := make([]uint32, n/4+1)
+		for i := range u32 {
+			u32[i] = uint32(i)*2654435761 + 1
+		}
+		out = append(out,
+			GV{fmt.Sprintf("long#bytes%d", n), "long-array", seqBytes(n)},
+			GV{fmt.Sprintf("long#str%d", n), "long-array", strings.Repeat("0123456789abcdeé", n/17+1)[:n/17*17]},
+			GV{fmt.Sprintf("long#u32-%d", n), "long-array", struct {
+				A []uint32
+				B string
+			}{u32, "tail"}},
+		)
+	}
 	// pair structs: every ordered pair of representative kinds as two fields of one struct
 	reps := []struct {
 		name string
